@@ -425,6 +425,16 @@ class CFG:
                 res.add(k)
         return res
 
+    def path_edge_facts(self, path):
+        """branch facts taken along a block path [(key, polarity)]"""
+        if not hasattr(self, "_edge_facts"):
+            self.facts_in()
+        out = set()
+        for a, b in zip(path, path[1:]):
+            for (n, pol) in self._edge_facts.get((a, b), ()):
+                out.add((render(n), pol))
+        return out
+
     # ---- path search that respects correlated branch conditions -----------------
     def find_feasible_path(self, start, is_target, is_blocker, start_after=True, max_states=20000):
         """like find_path, but carries the branch facts taken along the path (killed by writes to what they mention)
